@@ -1112,7 +1112,7 @@ let do_cis id ins outs =
       | _ -> { pr_id = pid; pr_prefix = None; pr_mac = []; pr_dest = [] } in
     let ps = List.fold_left (fun acc x -> pset acc (mk x)) [] el in
     let lst s = if s = "-" then [] else List.map bytes_of_token (String.split_on_char ',' s) in
-    let problems = ref [] and specs = ref [] in
+    let problems = ref [] and specs = ref [] and spec13 = ref false in
     (if List.length qs <> List.length outs then problems := ["result count"] else
     List.iteri (fun k (q, o) ->
       match String.split_on_char ';' q, String.split_on_char '/' o with
@@ -1124,12 +1124,14 @@ let do_cis id ins outs =
         let ci = lan_client_info prof (bytes_of_token ipt) (bytes_of_token ip16) macb (lst ba) (lst bm) in
         let m = String.concat "/" [hexs ci.ci_id; hexs ci.ci_ip; hexs ci.ci_model; hexs ci.ci_name; hexs prof] in
         let i = String.concat "/" [iid; iip; imodel; iname; iprof] in
-        if iid <> ifresh then specs := Printf.sprintf "client %d (profile %s): id sent is %s, the id of this profile and device computed on its own is %s" k
+        if iip <> ipt then (spec13 := true; specs := Printf.sprintf "client %d: the address %s the query came with (ECS or socket) is not what is reported as the client's identity (X-Device-Ip %s)" k
+              (string_of_bytes (bytes_of_token ipt)) (if iip = "-" then "absent" else string_of_bytes (bytes_of_token iip)) :: !specs)
+        else if iid <> ifresh then specs := Printf.sprintf "client %d (profile %s): id sent is %s, the id of this profile and device computed on its own is %s" k
               (string_of_bytes (bytes_of_token iprof)) (string_of_bytes (bytes_of_token iid)) (string_of_bytes (bytes_of_token ifresh)) :: !specs
         else if i <> m then problems := Printf.sprintf "client %d impl=%s model=%s" k i m :: !problems
       | _ -> problems := "malformed client" :: !problems) (List.combine qs outs));
     let tag = Printf.sprintf "p%d/q%d" n (List.length qs) in
-    if !specs <> [] then verdict "cis" id "spec:C14" tag (String.concat "; " (List.rev !specs))
+    if !specs <> [] then verdict "cis" id (if !spec13 then "spec:C13,C14" else "spec:C14") tag (String.concat "; " (List.rev !specs))
     else if !problems <> [] then verdict "cis" id "diff" tag (String.concat "; " (List.rev !problems))
     else verdict "cis" id "ok" tag ""
   | _ -> verdict "cis" id "diff" "malformed-line" ""
